@@ -4,6 +4,7 @@ appends. The cluster-level statement (same (index, term) ⇒ same entry and same
 moments) is evaluated on explored executions by clustersim/nodediff, not proved here.
 -/
 import RaftVerif.Lemmas.StepInv
+import RaftVerif.Lemmas.ReplSteps
 
 namespace Raft
 namespace C04
@@ -120,3 +121,5 @@ end Raft
 #print axioms Raft.C04.removeGTE_keeps_prefix
 #print axioms Raft.C04.stale_append_refused
 #print axioms Raft.C04.missing_prev_refused
+#print axioms Raft.Repl.repl_request_from_log
+#print axioms Raft.Repl.heartbeat_no_entries
